@@ -90,6 +90,29 @@ inspected.  Case kinds:
          written = the document without its comment lines: paragraphs, files tuples, matches(), find_files_paragraph),
          then from bytes and judged in the same way, then both are compared name by name
                 (M.cmt.str.order, M.cmt.str.files, M.cmt.str.find, M.cmt.order, M.cmt.files, M.cmt.find, M.cmt.same, M.match)
+  enc    copyright files handed to Copyright() as BYTES in which exactly ONE line is NOT VALID UTF-8: a Copyright / Comment /
+         License-text / Disclaimer / Upstream-Contact / Source line (first line of its field or a continuation line) that carries
+         an author name in a legacy encoding (latin-1, cp1252, iso-8859-15, cp437, cp850, mac-roman, cp1250, iso-8859-2, koi8-r,
+         cp1251, iso-8859-5, shift_jis, euc-jp), while the Files fields and the queried names carry correct UTF-8 non-ASCII
+         characters ('docs/café/*', 'ünï/*.c', '中文/*', 'src/日本語/?.c', Greek, Cyrillic, a 4-byte character, ...).  The bad
+         line stands (one position forced per document) in the same paragraph BEFORE the Files field, in the same paragraph
+         AFTER it, in an EARLIER paragraph (header, stand-alone License, other Files paragraph), in a LATER one; directly in front
+         of / behind the Files field.  Sources as for `cmt` (without the whole bytes string); default and strict=False.  The
+         CONTROL is the same document with that line made valid (all lines UTF-8): judged against what was written.  The
+         document with the bad line must show the same Files paragraphs, the same files tuples, the same matches() answers and
+         the same find_files_paragraph results; what the bad line itself reads as is never looked at (not even the id of a
+         paragraph whose Copyright line it is).  Names: literal expansions of the patterns over an alphabet with non-ASCII
+         characters, one edit, the MOJIBAKE reading of an expansion (its UTF-8 bytes read as latin-1 / cp1252 / cp1253 / ...),
+         its ASCII folding
+                (M.enc.ctl.order, M.enc.ctl.files, M.enc.ctl.find, M.enc.order, M.enc.files, M.enc.find, M.enc.same, M.match)
+  pgp    copyright files in which Comment / License / Copyright / Disclaimer texts QUOTE PGP ARMOR LINES on CONTINUATION lines,
+         leading blank(s) kept (' -----BEGIN PGP SIGNATURE-----', '   -----BEGIN PGP SIGNED MESSAGE-----', tab-led, with
+         trailing blanks; BEGIN without END, BEGIN .. END, a lone END line, a whole quoted clear-signed message, a key block; 10%
+         of the quotes start on the field line itself: 'Comment: -----BEGIN PGP SIGNATURE-----'), hosted by the header, a Files
+         paragraph (before / behind its Files field) or a stand-alone License paragraph, in front of later Files paragraphs.
+         Only a marker in column 0 is armor: every paragraph written must be there.  str and bytes sources (20 kinds), default
+         and strict=False.  all_files_paragraphs() against what was written, files tuples, matches(), find_files_paragraph
+         (last match)                                                  (M.pgp.order, M.pgp.files, M.pgp.find, M.match)
   raw    patterns with blanks / tabs / newlines, which cannot be
          written in a Files field: globs_to_re driven through the
          real FilesParagraph.matches of a subclass whose `files`
@@ -174,6 +197,23 @@ by any other class of this module:
   matches(): a list of wildcard-led patterns does not match '.x'      matches-rejects-matching-name/leading-dot-or-slash-pattern-built-through-api
   create() strips leading '/'                                         matches-*-name/leading-dot-or-slash-pattern-built-through-api/files-differs-..
 
+Unchanged tree, one undecodable line / quoted armor lines (probed before the classes were added): chardet IS importable in this
+sandbox (7.6.0); _AutoDecoder decodes LINE BY LINE: a line that is not valid UTF-8 gets a UnicodeWarning and is decoded with
+whatever single-byte encoding chardet guesses for that line alone (Windows-1253 for 'José García' in latin-1, cp720,
+MacLatin2, ...: ASCII stays ASCII, the name is usually wrong) - the `else:` branch that would make the guess stick for "the rest
+of the paragraph" is dead code (the `try` body returns), every paragraph has its own decoder, so all other lines stay UTF-8.
+Deb822._gpgre is anchored at column 0 and applied to the line with only CR / LF stripped: ' -----BEGIN PGP ..' is a
+continuation line like any other.  Both classes are silent on the unchanged tree.
+Mutants of these classes (repo tests still 234 passed), all exit 1, none seen by the other classes of this module:
+  _AutoDecoder keeps the guessed encoding for the rest of the paragraph (the dead `else:` made live)
+                                       matches-*-name/document-with-one-undecodable-line/files-differs-from-what-was-written
+  _internal_parser decodes the paragraph in one go, on failure all its lines with the encoding guessed for the whole
+                                       the same keys (lines BEFORE the bad line are mojibake too)
+  one decoder per iter_paragraphs() call, guess sticks for the rest of the file      the same keys (LATER paragraphs)
+  _gpgre = ^\\s*-----(BEGIN|END) ..      files-paragraph-lost-behind-quoted-pgp-armor-line/{str,bytes}-source[/parsed-with-strict=False],
+                                       document-rejected-behind-.., files-paragraphs-differ-behind-..
+  an indented '-----END PGP' line is taken for the end of the armor               the same keys
+
 Mutants of this class tried on a scratch copy (repo tests still 234 passed):
   find caches list(all_files_paragraphs()) at first use          caught (find-misses-matching-paragraph, find-first-match-wins)
   add_files_paragraph: `if not last_i: insert(0, ..)`            caught (files-paragraph-order-differs-from-documented-insertion)
@@ -248,6 +288,24 @@ RULE = ('Seeded pattern lists (1..3, thorough 1..4 patterns of 1..5, thorough 1.
         "3/17, BytesIO 3/17, file opened 'rb' 3/17, generator 2/17, list without line ends, tuple, iterator, BufferedReader, "
         "unbuffered 'rb' file, whole bytes string 1/17 each; 35% strict=False; 15% no end of line after the last line; "
         "each document also parsed from the str source of the same family); "
+        "BYTES DOCUMENTS WITH ONE LINE THAT IS NOT VALID UTF-8 (1..3, thorough 1..5 Files paragraphs + License paragraphs; ~85% of the "
+        "pattern lists drawn from 30 non-ASCII patterns - 'docs/café/*' 'ünï/*.c' '中文/*' 'src/日本語/?.c' 'po/пер?вод.po' 'emoji/😀*' "
+        "... - 25% of the further patterns narrowing a pattern of an earlier paragraph; Files field one-line / continuation lines, "
+        "first / last / in the middle of its paragraph, Comment field in front of or behind it, Copyright and License with 0..2 "
+        "continuation lines, header with Upstream-Contact / Source / Comment / Disclaimer / Copyright / License at 30% each, all "
+        "carrying author names; exactly one of those lines - never a Files line, never a License short name - encoded in one of 13 "
+        "legacy encodings so that it is not valid UTF-8, position forced: same paragraph before the non-ASCII Files field 3/11, "
+        "same paragraph behind it 2/11, earlier paragraph 2/11, later paragraph 2/11, header 1/11, any 1/11; 60% of the other author "
+        "lines carry valid UTF-8 non-ASCII names; 16 bytes source kinds; 35% strict=False; 12% no end of line after the last line; 6 "
+        "names per case: literal expansion 50%, one edit 20%, mojibake reading 20%, ASCII folding 10%; each document also parsed "
+        "with the bad line made valid); "
+        "DOCUMENTS QUOTING PGP ARMOR LINES ON CONTINUATION LINES (2..4, thorough 2..6 Files paragraphs + License paragraphs, 55% of the "
+        "later lists overlapping an earlier one; 1 (25%: 2) quoted blocks - BEGIN SIGNATURE without END 3/15, with END 2/15, BEGIN "
+        "SIGNED MESSAGE 3/15, whole clear-signed message 2/15, lone END 3/15, key block 2/15 - indented by ' ' 4/10, '  ' / '   ' / 8 "
+        "blanks 4/10, a tab 2/10 (never in License texts), 1/3 with trailing blank / tab; host header 2/8 (Comment, Disclaimer, License, "
+        "Copyright), Files paragraph 4/8 (85% not the last one; new Comment field first / last / between fields, License text, "
+        "Copyright continuation), stand-alone License paragraph 2/8; 12% of the new fields quote the marker on the field line; 20 "
+        "source kinds str and bytes; 40% strict=False; 12% no end of line after the last line; 5 near-miss names); "
         'histories of files re-assignments; BUILD HISTORIES through the public API '
         '(start: empty Copyright() or a parsed document with 0..4 Files paragraphs; 2..12 steps of add_files_paragraph / '
         'add_license_paragraph / files re-assignment, half of the added lists overlapping a list already in the document; '
@@ -347,6 +405,40 @@ ASSUMPTIONS = ['vp.models.globmatch is a faithful model of the copyright-format 
                'parses to what was written, otherwise counted (cmt:note:whole-string-source-not-judged) and never reported; (e) bytes '
                'are UTF-8, the default `encoding`; (f) with an illegal escape in the document str and bytes results are not compared '
                'name by name (either accepted outcome may occur)',
+               'bytes documents with ONE line that is not valid UTF-8: Copyright() documents "encoding: Encoding to use, in case input is '
+               'raw byte strings" (default utf-8) and nothing about lines that are not in that encoding; the unchanged tree decodes such a '
+               'line by itself with an encoding guessed by chardet (importable here) after a UnicodeWarning and every other line as '
+               'UTF-8.  Taken as the statement: what the bad line reads as is NOT judged (nor is a document that this tree rejects or '
+               're-shapes because of that line alone); every OTHER line means what it means in the same document with the bad line '
+               'made valid - in particular the Files fields: same Files paragraphs, files tuples, matches() answers, '
+               'find_files_paragraph results.  Domain: the bad line is a Copyright / Comment / License-text / Disclaimer / '
+               'Upstream-Contact / Source line (never Format, never a line of a Files field, never the line with a License short '
+               'name), it contains no CR / LF bytes, exactly one line per document; patterns and names contain no character that '
+               'str.split() takes for whitespace (no U+00A0, U+3000, U+0085, U+2028)',
+               'one undecodable line, guards: (a) the control (all lines UTF-8) is judged first against what was written; if it does not '
+               'show the Files paragraphs written a violation is reported only when the str parse of the same text (source of the same '
+               'family) does (key ...-in-utf-8-bytes-document/bytes-source), else harness sanity (inconclusive); (b) the document with '
+               'the bad line is judged only after the control held completely; if it is rejected or shows other Files paragraphs, a '
+               'SECOND control decides: the same document with every OTHER line made ASCII (non-ASCII characters replaced by x) and the '
+               'bad line kept - if that one shows the (asciified) paragraphs written, the bad line by itself is harmless and the '
+               'difference comes from how the OTHER lines were decoded: violation (key ...-in-document-with-one-undecodable-line); if '
+               'not, the bad line alone changes the document on this tree: counted (enc:note:*, enc_notes), never reported; (c) Files '
+               'paragraphs are identified by the first token of their Copyright field, except the paragraph whose Copyright LINE is the '
+               'bad line (position only); a files tuple that differs is not a verdict by itself (the patterns that differ become names; '
+               'key suffix /files-differs-from-what-was-written; without an observed wrong answer a note); (d) warnings of the decoder '
+               'are recorded and counted (enc:note:warning:UnicodeWarning), never judged; the filters of the process (warnings-as-errors '
+               'shards) stay in force for every other category',
+               'documents quoting PGP armor lines: RFC 4880 armor header lines start in column 0; Deb822 documents "PGP signatures, if '
+               'present, will be stripped" and split_gpg_and_payload matches ^-----(BEGIN|END) PGP ..-----; a continuation line starts '
+               'with a blank or a tab (Policy 5.1), so \' -----BEGIN PGP SIGNATURE-----\' inside a Comment / License / Copyright / '
+               'Disclaimer text is TEXT (copyright-format 1.0 License texts quote whole licenses verbatim, one leading blank added), and '
+               'so is \'Comment: -----BEGIN PGP SIGNATURE-----\' (the marker is not in column 0).  The document is therefore the document '
+               'written: every paragraph is there.  Guards: a document that does not show the Files paragraphs written (or is rejected) '
+               'is reported only if the CONTROL - the same document, same source kind, same `strict`, with the ----- of the quoted '
+               'marker lines replaced by ===== - does show them (key ...-behind-quoted-pgp-armor-line/{str,bytes}-source), else harness '
+               'sanity (inconclusive); stand-alone License paragraphs that differ are a note; files tuples as above; License texts '
+               'are not led in by tabs (the library reports a tab-led License text line as a format error when the license is read - '
+               'outside this property); documents with a marker in column 0 (really signed files) are outside the class',
                'names are str; patterns containing whitespace are only reachable through globs_to_re and are observed '
                'through the real FilesParagraph.matches of a subclass overriding the `files` property',
                'build histories: "the last Files paragraph of the document as it is now" is read off an independent model of '
@@ -405,17 +497,19 @@ FORMAT = 'https://www.debian.org/doc/packaging-manuals/copyright-format/1.0/'
 # workload sizes (TOTAL cases over all shards)
 
 SIZES = {
-    'para': (60000, 2600000),      # x ~6 names
-    'hist': (11400, 480000),       # x ~8 ops
-    'doc': (8500, 360000),         # x ~5 names x ~3 paragraphs
+    'para': (56000, 2600000),      # x ~6 names
+    'hist': (10800, 480000),       # x ~8 ops
+    'doc': (8000, 360000),          # x ~5 names x ~3 paragraphs
     'raw': (10000, 400000),        # x ~5 names
     'wsdoc': (3600, 150000),       # x ~5 names x ~3 paragraphs; paragraphs separated by whitespace-only lines
-    'build': (4600, 150000),       # x ~5 query steps x ~6 names x ~3 paragraphs, + one dump-then-parse per query step
+    'build': (4300, 150000),       # x ~5 query steps x ~6 names x ~3 paragraphs, + one dump-then-parse per query step
     'nsdoc': (1400, 42000),        # whitespace-only separator runs of 2..4 lines, Copyright(..., strict=False)
-    'long': (900, 28000),          # built paragraphs with LONG pattern lists: x ~20 names x ~3 paragraphs x 2..3 stages
+    'long': (840, 28000),          # built paragraphs with LONG pattern lists: x ~20 names x ~3 paragraphs x 2..3 stages
     'lead': (700, 22000),          # built paragraphs whose patterns START with '.' or '/': x ~14 names x ~3 paragraphs x 2..3 stages
     'cmt': (1600, 60000),          # BYTES documents with '#' comment lines + the same document as str: x ~6 names x ~3 paragraphs x 2
     'incr': (700, 24000),         # documents built incrementally with SHARED license short names: x ~6 adds x (listing + ~6 names + 2 re-parses)
+    'enc': (700, 28000),          # BYTES documents with ONE line that is not valid UTF-8 + the same document with that line valid: x ~6 names x ~3 paragraphs x 2
+    'pgp': (800, 30000),          # documents quoting PGP armor lines on continuation lines: x ~5 names x ~3 paragraphs
 }
 
 LIT = ['a', 'a', 'a', 'b', 'b', 'c', 'A', '/', '/', '.']
@@ -1222,6 +1316,481 @@ def gen_cmt_case(r, wide):
 
 
 # ---------------------------------------------------------------------------
+# BYTES documents in which ONE field line is not valid UTF-8 (kind 'enc')
+
+# non-ASCII patterns (correct UTF-8 in the document); none contains a character str.split() takes for whitespace
+ENC_PATTERNS = ['docs/café/*', 'docs/café/*', 'ünï/*.c', 'ünï/*.c', '中文/*', 'src/日本語/?.c', 'données/*.csv', 'Ελληνικά/*', 'naïve.txt',
+                'README.ру', 'po/пер?вод.po', 'fonts/Ω*', 'straße/*', 'emoji/😀*', 'ｆｕｌｌ/*.h', 'docs/café/README', 'ünï/main.c',
+                '*/日本語/*', 'café*', '?ber/*', 'data/∑?.dat', 'man/ja/マニュアル.1', 'docs/café/\\*', 'ñ', 'é?', '*é', '中?', '*.ç',
+                'docs/café/*', 'ÿ/þ']
+ENC_ALPHA = ['a', 'a', 'b', 'c', '/', '/', '.', 'x', '-', 'é', 'é', 'ü', '中', 'я', 'ß', 'Ω']
+# author names and the legacy encodings they are realistically found in
+ENC_AUTHORS = [('José García', ('latin-1', 'latin-1', 'cp1252', 'iso-8859-15', 'cp437', 'mac-roman', 'cp850')),
+               ('François Müller', ('latin-1', 'latin-1', 'cp1252', 'iso-8859-15', 'cp437', 'mac-roman')),
+               ('Jürgen Groß', ('latin-1', 'cp1252', 'iso-8859-15', 'cp850')),
+               ('Renée Østergård', ('latin-1', 'cp1252', 'iso-8859-15', 'mac-roman')),
+               ('Ærøskøbing Åse', ('latin-1', 'iso-8859-15')),
+               ('© 2001 Foo Inc.', ('latin-1', 'cp1252')),
+               ('“Foo” – Bar', ('cp1252',)),
+               ('Łukasz Żółw', ('cp1250', 'iso-8859-2')),
+               ('Дмитрий Иванов', ('koi8-r', 'cp1251', 'iso-8859-5')),
+               ('山田太郎', ('shift_jis', 'euc-jp')),
+               ('é', ('latin-1',)), ('Muñoz', ('latin-1', 'cp1252'))]
+ENC_FAMILY = {'latin-1': 'western-single-byte', 'cp1252': 'western-single-byte', 'iso-8859-15': 'western-single-byte',
+              'cp437': 'western-single-byte', 'cp850': 'western-single-byte', 'mac-roman': 'western-single-byte',
+              'cp1250': 'central-european', 'iso-8859-2': 'central-european', 'koi8-r': 'cyrillic', 'cp1251': 'cyrillic',
+              'iso-8859-5': 'cyrillic', 'shift_jis': 'cjk-multi-byte', 'euc-jp': 'cjk-multi-byte'}
+ENC_ASCII_AUTHORS = ['Jane Doe', 'The Foo Authors', 'J. Random Hacker']
+ENC_SRCS = ['bytes-list', 'bytes-list', 'bytes-list', 'bytes-list-noeol', 'bytes-tuple', 'bytes-gen', 'bytes-gen', 'bytes-iter',
+            'bytesio', 'bytesio', 'bytesio', 'bytes-buffered', 'disk-rb', 'disk-rb', 'disk-rb', 'disk-rb-raw']
+ENC_FOCUS = ['same-para-before-files', 'same-para-before-files', 'same-para-before-files', 'same-para-after-files',
+             'same-para-after-files', 'earlier-para', 'earlier-para', 'later-para', 'later-para', 'header', 'any']
+ENC_HDR = ['contact', 'source', 'comment', 'comment2', 'disclaimer', 'copyright', 'license']
+
+
+def _non_ascii(s):
+    return any(ord(ch) > 127 for ch in s)
+
+
+def _not_utf8(raw):
+    try:
+        raw.decode('utf-8')
+    except UnicodeDecodeError:
+        return True
+    return False
+
+
+def gen_enc_list(r, earlier):
+    """1..3 patterns, most of them with non-ASCII characters; 25% of the further ones narrow a pattern of an EARLIER
+    paragraph (the later paragraph must win for the names both match)."""
+    pats = []
+    for _ in range(r.choice((1, 1, 2, 2, 3))):
+        k = r.random()
+        if earlier and k < 0.25:
+            src = r.choice(r.choice(earlier))
+            s = ''
+            if G.is_legal(src):
+                s = G.expand(G.parse(src), r, ENC_ALPHA)
+            p = escape_literal(s) if s else src
+            if r.random() < 0.3 and len(s) > 1:
+                p = escape_literal(s[:r.randrange(1, len(s))]) + '*'
+        elif k < 0.85:
+            p = r.choice(ENC_PATTERNS)
+        else:
+            p = r.choice(REAL_POOL)
+        if p not in pats:
+            pats.append(p)
+    return pats
+
+
+def enc_mojibake(r, s):
+    """What the name looks like when its UTF-8 bytes are read in a legacy encoding (a NEAR MISS for the pattern it came from)."""
+    raw = s.encode('utf-8')
+    for codec in r.sample(['latin-1', 'cp1252', 'cp1253', 'cp1250', 'mac-roman', 'cp437'], 3):
+        t = raw.decode(codec, 'replace')
+        if t != s:
+            return t
+    return s + 'Ã©'
+
+
+def enc_names(r, lists, k):
+    """Names near the languages of the lists: literal expansions (non-ASCII ones preferred), one edit, the mojibake reading of
+    an expansion, its ASCII folding."""
+    toks = [t for gl in lists for t in gl.toks if t is not None]
+    names = []
+    for _ in range(k):
+        s = ''
+        for _try in range(3):
+            s = G.expand(r.choice(toks), r, ENC_ALPHA)
+            if _non_ascii(s):
+                break
+        x = r.random()
+        if x < 0.5:
+            pass
+        elif x < 0.7:
+            alpha = ENC_ALPHA + ['e', 'u', '?', '*']
+            i = r.randrange(len(s) + 1)
+            y = r.random()
+            if y < 0.35 or not s:
+                s = s[:i] + r.choice(alpha) + s[i:]
+            elif y < 0.7:
+                i = r.randrange(len(s))
+                s = s[:i] + s[i + 1:]
+            else:
+                i = r.randrange(len(s))
+                s = s[:i] + r.choice(alpha) + s[i + 1:]
+        elif x < 0.9:
+            s = enc_mojibake(r, s)
+        else:
+            s = ''.join(ch if ord(ch) < 128 else {'é': 'e', 'ü': 'u', 'ï': 'i', 'ß': 'ss'}.get(ch, '?') for ch in s)
+        names.append(s)
+    return names
+
+
+def enc_records(paras, hdr):
+    """The document as records [line body, paragraph index (-1: header), field, first line of its field, candidate].  A
+    candidate line carries the placeholder {A} (an author name): one of them becomes the line that is not valid UTF-8.  Never
+    candidates: the Format line, the lines of a Files field, the line that carries the short name of a License field."""
+    recs = []
+
+    def add(text, pi, field, first, cand=False):
+        recs.append([text, pi, field, first, cand])
+
+    add('Format: %s' % FORMAT, -1, 'Format', True)
+    add('Upstream-Name: x', -1, 'Upstream-Name', True)
+    for h in hdr:
+        if h == 'contact':
+            add('Upstream-Contact: {A} <a@example.org>', -1, 'Upstream-Contact', True, True)
+        elif h == 'source':
+            add('Source: https://example.org/ (mirror kept by {A})', -1, 'Source', True, True)
+        elif h == 'comment':
+            add('Comment: packaged by {A}', -1, 'Comment', True, True)
+        elif h == 'comment2':
+            add('Comment: packaged by', -1, 'Comment', True)
+            add(' {A}', -1, 'Comment', False, True)
+            add(' and others', -1, 'Comment', False)
+        elif h == 'disclaimer':
+            add('Disclaimer: not part of Debian', -1, 'Disclaimer', True)
+            add(' because {A} says so', -1, 'Disclaimer', False, True)
+        elif h == 'copyright':
+            add('Copyright: 1999 {A}', -1, 'Copyright', True, True)
+        elif h == 'license':
+            add('License: H0', -1, 'License', True)
+            add(' header license text by {A}', -1, 'License', False, True)
+    for i, p in enumerate(paras):
+        add('', i, None, False)
+        if 'F' not in p:
+            add('License: L%d' % i, i, 'License', True)
+            add(' text %d by {A}' % i, i, 'License', False, True)
+            if p.get('lt'):
+                add(' more text %d' % i, i, 'License', False)
+            if p.get('post'):
+                add('Comment: note %d by {A}' % i, i, 'Comment', True, True)
+            continue
+        pats, sep = p['F'], p.get('sep', 0)
+        if sep == 0:
+            f = [['Files: %s' % ' '.join(pats), True]]
+        elif sep == 1:
+            f = [['Files: %s' % pats[0], True]] + [[' %s' % x, False] for x in pats[1:]]
+        else:
+            f = [['Files:', True]] + [[' %s' % x, False] for x in pats]
+        f = [[t, i, 'Files', first, False] for t, first in f]
+        c = [['Copyright: c%d 2001 {A}' % i, i, 'Copyright', True, True]]
+        for k in range(p.get('cc', 0)):
+            c.append([' %d {A}' % (2002 + k), i, 'Copyright', False, True])
+        l = [['License: L%d' % i, i, 'License', True, False]]
+        for k in range(p.get('lt', 0)):
+            l.append([' license text %d.%d by {A}' % (i, k), i, 'License', False, True])
+        pre, post = [], []
+        if p.get('pre'):
+            pre.append(['Comment: pre %d by {A}' % i, i, 'Comment', True, True])
+            if p['pre'] > 1:
+                pre.append([' and {A}', i, 'Comment', False, True])
+        if p.get('post'):
+            post.append(['Comment: post %d by {A}' % i, i, 'Comment', True, True])
+        fo = p.get('fo', 0)
+        if p.get('pre') and p.get('post'):
+            post = []                                   # one Comment field per paragraph
+        if fo == 0:
+            recs.extend(pre + f + c + l + post)
+        elif fo == 1:
+            recs.extend(c + l + pre + f + post)
+        else:
+            recs.extend(c + pre + f + l + post)
+    return recs
+
+
+def enc_positions(lines, bad):
+    """Where the line number `bad` stands relative to the Files fields that carry non-ASCII patterns (labels for the evidence
+    counters and for the generator's forcing); also (ordinal of the Files paragraph it is in | None, its field name, whether it
+    is the first line of its field, ordinal of its paragraph in the document: 0 = header)."""
+    paras, cur = [], []
+    for k, l in enumerate(lines):
+        if l == '':
+            if cur:
+                paras.append(cur)
+            cur = []
+        else:
+            cur.append(k)
+    if cur:
+        paras.append(cur)
+    info = []          # per paragraph: (first, last line of the Files field | None, non-ASCII patterns?)
+    for idx in paras:
+        f0 = [k for k in idx if lines[k].startswith('Files:')]
+        if not f0:
+            info.append(None)
+            continue
+        a = b = f0[0]
+        while b + 1 <= idx[-1] and lines[b + 1][:1] in (' ', '\t'):
+            b += 1
+        info.append((a, b, any(_non_ascii(lines[k]) for k in range(a, b + 1))))
+    mine = [j for j, idx in enumerate(paras) if idx[0] <= bad <= idx[-1]]
+    labels = []
+    if not mine:
+        return labels, None, None, False, None
+    j = mine[0]
+    k = bad
+    while k > paras[j][0] and lines[k][:1] in (' ', '\t'):
+        k -= 1
+    field = lines[k].split(':', 1)[0]
+    first = k == bad
+    if j == 0:
+        labels.append('header')
+    elif info[j] is None:
+        labels.append('stand-alone-license-paragraph')
+    if info[j] is not None:
+        a, b, na = info[j]
+        side = 'before' if bad < a else 'after'
+        labels.append('same-paragraph-%s-files-field' % side)
+        if na:
+            labels.append('same-paragraph-%s-non-ascii-files-field' % side)
+        if bad == a - 1:
+            labels.append('line-directly-before-files-field')
+        if bad == b + 1:
+            labels.append('line-directly-after-files-field')
+    if any(x is not None and x[2] for x in info[j + 1:]):
+        labels.append('earlier-paragraph-than-non-ascii-files-field')
+    if any(x is not None and x[2] for x in info[:j]):
+        labels.append('later-paragraph-than-non-ascii-files-field')
+    ford = None
+    if info[j] is not None:
+        ford = sum(1 for x in info[:j] if x is not None)
+    return labels, ford, field, first, j
+
+
+_ENC_FOCUS_LABEL = {'same-para-before-files': 'same-paragraph-before-non-ascii-files-field',
+                    'same-para-after-files': 'same-paragraph-after-non-ascii-files-field',
+                    'earlier-para': 'earlier-paragraph-than-non-ascii-files-field',
+                    'later-para': 'later-paragraph-than-non-ascii-files-field', 'header': 'header'}
+
+
+def gen_enc_case(r, wide):
+    """A copyright document handed to Copyright() as BYTES in which exactly ONE line - a Copyright / Comment / License-text /
+    Disclaimer / header field line carrying an author name in a legacy encoding - is not valid UTF-8, while Files fields and
+    queried names carry correct UTF-8 non-ASCII characters.  One position of the bad line is forced per document (ENC_FOCUS)."""
+    focus = r.choice(ENC_FOCUS)
+    nf = r.choice((1, 2, 2, 3, 3)) if not wide else r.choice((1, 2, 3, 3, 4, 5))
+    paras, lists, earlier = [], [], []
+    for j in range(nf):
+        if r.random() < 0.3:
+            paras.append({'L': 1, 'lt': r.choice((0, 1)), 'post': r.choice((0, 0, 1))})
+        k = r.random()
+        if j == 0 and k < 0.2 and nf > 1:
+            pats = ['*']
+        elif k < 0.85 or not earlier:
+            pats = gen_enc_list(r, earlier)
+            if not any(_non_ascii(x) for x in pats):
+                pats.insert(r.randrange(len(pats) + 1), r.choice(ENC_PATTERNS))
+            earlier.append(pats)
+        else:
+            pats = gen_list(r, wide, illegal_ok=False)
+        paras.append({'F': pats, 'sep': r.choice((0, 1, 1, 2)), 'fo': r.choice((0, 0, 1, 2)), 'pre': r.choice((0, 0, 0, 1, 2)),
+                      'post': r.choice((0, 0, 1)), 'cc': r.choice((0, 0, 1, 2)), 'lt': r.choice((0, 0, 1, 2))})
+        lists.append(G.GlobList(pats))
+    if r.random() < 0.35 or focus == 'later-para':
+        paras.append({'L': 1, 'lt': r.choice((0, 1)), 'post': r.choice((0, 0, 1))})
+    hdr = [h for h in ENC_HDR if r.random() < 0.3]
+    if 'comment' in hdr and 'comment2' in hdr:
+        hdr.remove('comment2')
+    if focus == 'header' and not hdr:
+        hdr = [r.choice(ENC_HDR)]
+    na = [i for i, p in enumerate(paras) if 'F' in p and any(_non_ascii(x) for x in p['F'])]
+    if focus == 'same-para-before-files' and not any(paras[i]['fo'] or paras[i]['pre'] for i in na):
+        p = paras[r.choice(na)]
+        if r.random() < 0.5:
+            p['pre'] = r.choice((1, 2))
+        else:
+            p['fo'] = r.choice((1, 2))
+    recs = enc_records(paras, hdr)
+    lines0 = [x[0] for x in recs]
+    cand = [k for k, x in enumerate(recs) if x[4]]
+    want = _ENC_FOCUS_LABEL.get(focus)
+    pool = [k for k in cand if want in enc_positions(lines0, k)[0]] if want else []
+    bad = r.choice(pool or cand)
+    for _ in range(8):
+        author, codecs = r.choice(ENC_AUTHORS)
+        benc = r.choice(codecs)
+        try:
+            if _not_utf8(lines0[bad].replace('{A}', author).encode(benc)):
+                break
+        except UnicodeEncodeError:
+            pass
+    else:
+        author, benc = 'José García', 'latin-1'
+    lines = []
+    for k, x in enumerate(recs):
+        t = x[0]
+        if k == bad:
+            t = t.replace('{A}', author)
+        elif x[4]:
+            t = t.replace('{A}', r.choice(ENC_AUTHORS)[0] if r.random() < 0.6 else r.choice(ENC_ASCII_AUTHORS))
+        lines.append(t)
+    case = {'kind': 'enc', 'src': r.choice(ENC_SRCS), 'paras': paras, 'lines': lines, 'bad': bad, 'benc': benc,
+            'names': enc_names(r, lists, 6)}
+    if r.random() < 0.35:
+        case['strict'] = False
+    if r.random() < 0.12:
+        case['final_eol'] = False
+    return case
+
+
+# ---------------------------------------------------------------------------
+# documents whose text fields QUOTE PGP armor lines on continuation lines (kind 'pgp')
+
+PGP_SHAPES = ['begin-sig', 'begin-sig', 'begin-sig', 'begin-sig+end', 'begin-sig+end', 'begin-msg', 'begin-msg', 'begin-msg',
+              'clearsigned', 'clearsigned', 'end-only', 'end-only', 'end-only', 'key-block', 'begin-key']
+PGP_INDENT = [' ', ' ', ' ', ' ', '  ', '   ', '   ', '\t', ' \t', '        ']
+PGP_SRCS = ['str-list', 'str-list', 'str-list-noeol', 'str-tuple', 'str-gen', 'str-iter', 'stringio', 'stringio', 'disk-text',
+            'bytes-list', 'bytes-list', 'bytes-list-noeol', 'bytes-tuple', 'bytes-gen', 'bytes-iter', 'bytesio', 'bytesio',
+            'bytes-buffered', 'disk-rb', 'disk-rb-raw']
+PGP_HOSTS = ['header', 'header', 'files', 'files', 'files', 'files', 'license', 'license']
+
+
+def pgp_block(r, shape, uid, tabs_ok=True):
+    """Continuation lines that quote (part of) an ASCII-armored PGP object, every line with its leading blank(s).  tabs_ok=False:
+    blanks only (License texts: the library reads a tab-led License text line as a format error when the license is accessed)."""
+    ind = r.choice(PGP_INDENT if tabs_ok else [x for x in PGP_INDENT if '\t' not in x])
+    trail = r.choice(('', '', '', '', ' ', '\t'))
+
+    def m(what):
+        return '%s-----%s-----%s' % (ind, what, trail)
+
+    def b(text):
+        return ind + text
+
+    sig = [m('BEGIN PGP SIGNATURE')] + ([b('Version: GnuPG v1')] if r.random() < 0.3 else []) + \
+          ([' .'] if r.random() < 0.5 else []) + [b('iQEcBAEBAgAGBQJT%dAAoJEA' % uid), b('=Ab%d' % uid)]
+    msg = [m('BEGIN PGP SIGNED MESSAGE'), b('Hash: SHA256'), ' .', b('signed text %d' % uid)]
+    end = [m('END PGP SIGNATURE')]
+    if shape == 'begin-sig':
+        out = sig
+    elif shape == 'begin-sig+end':
+        out = sig + end
+    elif shape == 'begin-msg':
+        out = msg if r.random() < 0.6 else msg[:1]
+    elif shape == 'clearsigned':
+        out = msg + sig + end
+    elif shape == 'end-only':
+        out = ([b('the signature ends with')] if r.random() < 0.5 else []) + \
+              [m(r.choice(('END PGP SIGNATURE', 'END PGP SIGNATURE', 'END PGP MESSAGE', 'END PGP PUBLIC KEY BLOCK')))]
+    elif shape == 'key-block':
+        out = [m('BEGIN PGP PUBLIC KEY BLOCK'), ' .', b('mQENBF%dABCAC' % uid), b('=xy%d' % uid), m('END PGP PUBLIC KEY BLOCK')]
+    else:
+        out = [m('BEGIN PGP PUBLIC KEY BLOCK'), b('mQENBF%dABCAC' % uid)]
+    if r.random() < 0.4:
+        out = out + [' trailing text %d' % uid]
+    if r.random() < 0.3:
+        out = [' quoted %d:' % uid] + out
+    return out
+
+
+def _field_end(body, k):
+    """Index behind the last continuation line of the field that starts at body[k]."""
+    k += 1
+    while k < len(body) and body[k][:1] in (' ', '\t'):
+        k += 1
+    return k
+
+
+def pgp_insert(r, body, kind, shape, uid):
+    """Put a quoted block into the paragraph `body` (line bodies): as the text of a new Comment / Disclaimer field at a field
+    boundary, or as further continuation lines of the paragraph's License / Copyright field."""
+    starts = [k for k, l in enumerate(body) if l[:1] not in (' ', '\t')]
+    opts = ['comment-first', 'comment-last', 'comment-mid']
+    if any(body[k].startswith('License:') for k in starts):
+        opts += ['license-text', 'license-text']
+    if any(body[k].startswith('Copyright:') for k in starts):
+        opts += ['copyright-cont']
+    if kind == 'header':
+        opts = ['comment-last', 'comment-last', 'disclaimer', 'disclaimer', 'license-new', 'copyright-new']
+    how = r.choice(opts)
+    block = pgp_block(r, shape, uid, tabs_ok=how not in ('license-text', 'license-new'))
+    if how in ('license-text', 'copyright-cont'):
+        name = 'License:' if how == 'license-text' else 'Copyright:'
+        k = [k for k in starts if body[k].startswith(name)][0]
+        at = _field_end(body, k) if r.random() < 0.5 else k + 1
+        return body[:at] + block + body[at:]
+    x = r.random()
+    if how in ('license-new', 'copyright-new'):
+        head = ['License: H0'] if how == 'license-new' else ['Copyright: 1999 Header Holder %d' % uid]
+    else:
+        fname = 'Disclaimer' if how == 'disclaimer' else 'Comment'
+        if x < 0.12 and block[0].lstrip(' \t').startswith('-----'):
+            # the marker quoted on the field line itself: still not in column 0
+            head, block = ['%s: %s' % (fname, block[0].lstrip(' \t'))], block[1:]
+        elif x < 0.35:
+            head = ['%s:' % fname]
+        else:
+            head = ['%s: a quoted signature follows (%d)' % (fname, uid)]
+    new = head + block
+    if how == 'comment-first':
+        at = 0
+    elif how == 'comment-mid' and len(starts) > 1:
+        at = r.choice(starts[1:])
+    else:
+        at = len(body)
+    return body[:at] + new + body[at:]
+
+
+def gen_pgp_case(r, wide):
+    """A copyright document in which Comment / License / Copyright / Disclaimer texts quote PGP armor lines on CONTINUATION lines
+    (leading blanks kept), placed in front of later Files paragraphs; str and bytes sources, strict and non-strict."""
+    nf = r.choice((2, 2, 3, 3, 4)) if not wide else r.choice((2, 3, 3, 4, 5, 6))
+    realistic = r.random() < 0.2
+    paras, lists = [], []
+    for j in range(nf):
+        if r.random() < 0.3:
+            paras.append({'L': 1})
+        legal = [gl for gl in lists if gl.legal]
+        k = r.random()
+        if j == 0 and k < 0.3:
+            pats = ['*']
+        elif realistic:
+            pats = r.sample(REAL_POOL, r.choice((1, 2, 3)))
+        elif legal and k < 0.55:
+            pats = overlapping_list(r, r.choice(legal), wide)[0]
+        else:
+            pats = gen_list(r, wide, illegal_ok=False)
+        paras.append({'F': pats, 'sep': r.choice((0, 0, 1, 2)), 'fo': r.choice((0, 0, 1, 1, 2))})
+        lists.append(G.GlobList(pats))
+    if r.random() < 0.25:
+        paras.append({'L': 1})
+    n = len(paras)
+    fi = [i for i, p in enumerate(paras) if 'F' in p]
+    bodies = [['Format: %s' % FORMAT, 'Upstream-Name: x']] + [para_lines(i, p) for i, p in enumerate(paras)]
+    uid, used = 0, set()
+    for q in range(r.choice((1, 1, 1, 2))):
+        uid += 1
+        host = r.choice(PGP_HOSTS)
+        if host == 'header':
+            b = 0
+        elif host == 'files':
+            # 85%: a Files paragraph that is not the last one (later Files paragraphs stand behind the quote)
+            b = 1 + (r.choice(fi[:-1]) if len(fi) > 1 and r.random() < 0.85 else r.choice(fi))
+        else:
+            li = [i for i, p in enumerate(paras) if 'F' not in p and i < fi[-1]]
+            if not li:
+                host, b = 'files', 1 + fi[0]
+            else:
+                b = 1 + r.choice(li)
+        if b in used:
+            continue                                    # one quote per paragraph (no field twice in a paragraph)
+        used.add(b)
+        bodies[b] = pgp_insert(r, bodies[b], host, r.choice(PGP_SHAPES), uid)
+    lines = []
+    for b in bodies:
+        if lines:
+            lines.append('')
+        lines.extend(b)
+    case = {'kind': 'pgp', 'src': r.choice(PGP_SRCS), 'paras': paras, 'lines': lines, 'names': gen_names(r, lists, 5)}
+    if r.random() < 0.4:
+        case['strict'] = False
+    if r.random() < 0.12:
+        case['final_eol'] = False
+    return case
+
+
+# ---------------------------------------------------------------------------
 # build histories (kind 'build')
 
 def escape_literal(name):
@@ -1701,6 +2270,46 @@ def cases(ctx):
     r = ctx.rng('cmt')
     for i in range(ctx.size(*SIZES['cmt'])):
         yield gen_cmt_case(r, wide)
+    # -- BYTES documents in which ONE line (a latin-1 author name in Copyright / Comment / a header field) is not valid UTF-8;
+    #    Files fields and names with correct UTF-8 non-ASCII characters; the same document with that line valid is the control
+    if ctx.shard == 0:
+        paras = [{'F': ['*'], 'sep': 0, 'fo': 0, 'cc': 0}, {'F': ['docs/café/*', 'ünï/*.c', '中文/*'], 'sep': 1, 'fo': 2, 'pre': 1, 'cc': 1, 'lt': 1},
+                 {'L': 1}, {'F': ['src/日本語/?.c', 'docs/café/README'], 'sep': 2, 'fo': 0, 'post': 1}]
+        recs = enc_records(paras, ['contact', 'comment2'])
+        doc = [x[0].replace('{A}', 'José García') for x in recs]
+        enc_fixed_names = ['docs/café/a', 'docs/café/README', 'ünï/a.c', '中文/x', 'src/日本語/a.c', 'docs/cafÃ©/a', 'docs/cafe/a', 'README']
+        for k, x in enumerate(recs):
+            if x[4]:
+                for n_, src in enumerate(('bytes-list', 'bytesio', 'disk-rb', 'bytes-gen')):
+                    case = {'kind': 'enc', 'src': src, 'paras': paras, 'lines': doc, 'bad': k, 'benc': 'latin-1' if n_ % 2 == 0 else 'cp1252',
+                            'names': enc_fixed_names}
+                    if n_ >= 2:
+                        case['strict'] = False
+                    yield case
+    r = ctx.rng('enc')
+    for i in range(ctx.size(*SIZES['enc'])):
+        yield gen_enc_case(r, wide)
+    # -- documents whose Comment / License / Copyright / Disclaimer texts QUOTE PGP armor lines on continuation lines (leading
+    #    blanks kept) in front of later Files paragraphs; str and bytes sources, strict and non-strict
+    if ctx.shard == 0:
+        doc = ['Format: %s' % FORMAT, 'Upstream-Name: x', 'Comment: signed like', ' -----BEGIN PGP SIGNED MESSAGE-----', ' Hash: SHA256',
+               ' .', ' text', ' -----BEGIN PGP SIGNATURE-----', ' abcd', ' -----END PGP SIGNATURE-----', '',
+               'Files: *', 'Copyright: c0', 'License: L0', ' text', '   -----BEGIN PGP SIGNATURE-----', ' more', '',
+               'License: L1', ' -----END PGP SIGNATURE-----', ' tail', '',
+               'Comment: x', '\t-----BEGIN PGP SIGNED MESSAGE-----', 'Files: debian/*', 'Copyright: c2', 'License: L2', '',
+               'Copyright: c3', '   -----BEGIN PGP SIGNED MESSAGE-----', 'License: L3', 'Files: debian/rules', ' *.c', '',
+               'Files: src/*', 'Copyright: c4', 'License: L4', 'Comment: -----BEGIN PGP SIGNATURE-----']
+        paras = [{'F': ['*']}, {'L': 1}, {'F': ['debian/*']}, {'F': ['debian/rules', '*.c']}, {'F': ['src/*']}]
+        for src in sorted(set(PGP_SRCS)):
+            for strict in (True, False):
+                case = {'kind': 'pgp', 'src': src, 'paras': paras, 'lines': doc,
+                        'names': ['debian/rules', 'debian/x', 'src/a', 'a.c', 'src/a.c', 'README', 'debian/a.c']}
+                if not strict:
+                    case['strict'] = False
+                yield case
+    r = ctx.rng('pgp')
+    for i in range(ctx.size(*SIZES['pgp'])):
+        yield gen_pgp_case(r, wide)
     # -- build histories through the public API (empty / parsed start, adds, re-assignments, queries, dump-then-parse)
     if ctx.shard == 0:
         yield {'kind': 'build', 'start': {'mode': 'empty', 'paras': []},
@@ -2499,51 +3108,60 @@ def cmt_classify(lines):
     return labels
 
 
-def cmt_parse(ctx, lines, src, strict=True, final_eol=True):
-    """Copyright() over the document given as line bodies, handed over as the requested kind of bytes / str source."""
+def cmt_parse(ctx, lines, src, strict=True, final_eol=True, raw=None, note='ns'):
+    """Copyright() over the document given as line bodies, handed over as the requested kind of bytes / str source.  `raw`:
+    the line bodies as BYTES, already encoded (kind 'enc': one of them is not valid UTF-8) - bytes sources only; warnings
+    (UnicodeWarning of the decoder) are then recorded and counted as <note>:note:warning:*, never judged."""
     from debian import copyright as cp
 
     def mk(source):
-        if strict:
+        if strict and raw is None:
             return cp.Copyright(source)
         with warnings.catch_warnings(record=True) as caught:
-            warnings.simplefilter('always')
-            c = cp.Copyright(source, strict=False)
+            if strict:
+                # the filters of the process stay in force (warnings-as-errors shards); only the decoder's own category is let through
+                warnings.simplefilter('always', UnicodeWarning)
+                c = cp.Copyright(source)
+            else:
+                warnings.simplefilter('always')
+                c = cp.Copyright(source, strict=False)
         for w in caught:
-            ctx.count('ns:note:warning:%s' % w.category.__name__)
+            ctx.count('%s:note:warning:%s' % (note, w.category.__name__))
         return c
 
     is_bytes = src.startswith(('bytes', 'disk-rb'))
-    with_eol = [l + '\n' for l in lines]
-    if with_eol and not final_eol:
-        with_eol[-1] = lines[-1]
-    text = ''.join(with_eol)
     if is_bytes:
-        enc = lambda x: x.encode('utf-8')
+        bodies = list(raw) if raw is not None else [l.encode('utf-8') for l in lines]
+        nl, empty = b'\n', b''
     else:
-        enc = lambda x: x
+        bodies = list(lines)
+        nl, empty = '\n', ''
+    with_eol = [l + nl for l in bodies]
+    if with_eol and not final_eol:
+        with_eol[-1] = bodies[-1]
+    blob = empty.join(with_eol)
     if src in ('bytes-list', 'str-list'):
-        return mk([enc(l) for l in with_eol])
+        return mk(list(with_eol))
     if src in ('bytes-list-noeol', 'str-list-noeol'):
-        return mk([enc(l) for l in lines])
+        return mk(list(bodies))
     if src in ('bytes-tuple', 'str-tuple'):
-        return mk(tuple(enc(l) for l in with_eol))
+        return mk(tuple(with_eol))
     if src in ('bytes-gen', 'str-gen'):
-        return mk(enc(l) for l in with_eol)
+        return mk(l for l in with_eol)
     if src in ('bytes-iter', 'str-iter'):
-        return mk(iter([enc(l) for l in with_eol]))
+        return mk(iter(list(with_eol)))
     if src == 'bytesio':
-        return mk(io.BytesIO(text.encode('utf-8')))
+        return mk(io.BytesIO(blob))
     if src == 'bytes-buffered':
-        return mk(io.BufferedReader(io.BytesIO(text.encode('utf-8'))))
+        return mk(io.BufferedReader(io.BytesIO(blob)))
     if src == 'stringio':
-        return mk(io.StringIO(text))
+        return mk(io.StringIO(blob))
     if src in ('bytes-whole', 'str-whole'):
-        return mk(enc(text))
+        return mk(blob)
     if src in ('disk-rb', 'disk-rb-raw', 'disk-text'):
         path = _scratch_path(ctx)
         with open(path, 'wb') as f:
-            f.write(text.encode('utf-8'))
+            f.write(blob if is_bytes else blob.encode('utf-8'))
         if src == 'disk-rb':
             f = open(path, 'rb')
         elif src == 'disk-rb-raw':
@@ -2720,6 +3338,368 @@ def run_cmt(ctx, case):
             ctx.count('cmt-find:last-of-several-matching')
         if hits and len(want_lists[hits[-1]].patterns) >= 2 and paras[[i for i, p in enumerate(paras) if 'F' in p][hits[-1]]].get('sep'):
             ctx.count('cmt-find:resolves-to-paragraph-with-multi-line-files-field')
+
+
+# ---------------------------------------------------------------------------
+# kinds 'enc' (one line of a BYTES document is not valid UTF-8) and 'pgp' (quoted PGP armor lines on continuation lines)
+
+def _tok_files_view(doc, skip=None):
+    """(first token of the Copyright field = the unique id, files tuple) per Files paragraph, in the order all_files_paragraphs()
+    shows; the id of paragraph number `skip` is not looked at (its Copyright line is the one that is not judged)."""
+    out = []
+    for k, p in enumerate(doc.all_files_paragraphs()):
+        cpr = p.copyright
+        tag = (cpr.split() or ['?'])[0] if cpr else '?'
+        out.append(('?' if k == skip else tag, tuple(p.files)))
+    return out
+
+
+def _tok_ids(doc, skip=None):
+    """One id per non-header paragraph: first token of Copyright (Files paragraphs) / the License short name."""
+    from debian import copyright as cp
+    out, k = [], 0
+    for p in doc.all_paragraphs():
+        if isinstance(p, cp.Header):
+            continue
+        try:
+            if isinstance(p, cp.FilesParagraph):
+                cpr = p.copyright
+                out.append('?' if k == skip else ((cpr.split() or ['?'])[0] if cpr else '?'))
+                k += 1
+            elif isinstance(p, cp.LicenseParagraph):
+                out.append(p.license.synopsis)
+            else:
+                out.append('?%s' % type(p).__name__)
+        except Exception as e:
+            out.append('?%s' % type(e).__name__)
+    return out
+
+
+def _tok_structure(doc, want_tags, skip=None):
+    """('ok', files view, all ids) / ('raised', text) / ('paragraphs', files view)"""
+    if isinstance(doc, Exception):
+        return ('raised', '%s: %s' % (type(doc).__name__, doc))
+    try:
+        fv = _tok_files_view(doc, skip)
+        ids = _tok_ids(doc, skip)
+        hdr = doc.header.format
+    except Exception as e:
+        return ('raised', 'listing the paragraphs raised %s: %s' % (type(e).__name__, e))
+    if [t for t, _ in fv] != want_tags or hdr != FORMAT:
+        return ('paragraphs', fv)
+    return ('ok', fv, ids)
+
+
+def _lost_key(st, nwant, where):
+    if st[0] == 'raised':
+        return 'document-rejected-%s' % where
+    if len(st[1]) < nwant:
+        return 'files-paragraph-lost-%s' % where
+    if len(st[1]) > nwant:
+        return 'extra-files-paragraph-%s' % where
+    return 'files-paragraphs-differ-%s' % where
+
+
+def _judge_queries(ctx, case, doc, st, want_files, want_lists, names, rr, pre, label, mon_files, mon_find, cnt, suffix):
+    """files tuples against what was written (a difference is not a verdict by itself: the patterns that differ are turned
+    into names), every paragraph's matches() against the glob model, find_files_paragraph against the last-match rule.
+    Returns (one result per name of `names`, number of violations recorded)."""
+    fps = list(doc.all_files_paragraphs())
+    differs, extra, what = False, [], None
+    for k, (got, want) in enumerate(zip(st[1], want_files)):
+        ctx.mon(mon_files)
+        if got[1] == want[1]:
+            continue
+        differs = True
+        if what is None:
+            what = 'Files paragraph #%d (%s): files is %r, written was %r' % (k, label, got[1], want[1])
+        a, b = set(want[1]), set(got[1])
+        for pat in sorted(b - a)[:6] + sorted(a - b)[:6]:
+            nm = _literal_name(rr, pat)
+            if nm is not None and nm not in extra:
+                extra.append(nm)
+    nm = list(names) + [x for x in extra if x not in names]
+    mark = _viol_mark(ctx)
+    before = ctx.counters['op:matches']
+    res = doc_queries(ctx, case, doc, fps, want_lists, nm, {}, '-%s-%s' % (pre, label), mon=mon_find, cnt=cnt)
+    ctx.count('%s:matches-observed/%s' % (pre, label), ctx.counters['op:matches'] - before)
+    if differs:
+        suffix += '/files-differs-from-what-was-written'
+    n = _viol_retag(ctx, mark, suffix)
+    if n and differs:
+        ctx.violations[-1]['msg'] = (ctx.violations[-1]['msg'] + ' || ' + what)[:2000]
+    if differs and not n:
+        ctx.count('%s:note:files-differs-from-what-was-written-without-observed-effect/%s' % (pre, label))
+        ctx.extra.setdefault('%s_notes' % pre, [])
+        if len(ctx.extra['%s_notes' % pre]) < 3:
+            ctx.extra['%s_notes' % pre].append(what[:600])
+    return res[:len(names)], n
+
+
+def _asciify(s):
+    return ''.join(ch if ord(ch) < 128 else 'x' for ch in s)
+
+
+def run_enc(ctx, case):
+    """A copyright document handed over as BYTES in which exactly ONE line (never a line of a Files field) is not valid UTF-8.
+    The CONTROL is the same document with that line made valid (every line UTF-8): judged against what was written.  The
+    document with the bad line must then show the same Files paragraphs, the same files tuples, the same matches() answers
+    (glob model) and the same find_files_paragraph results; what the bad line itself reads as is not looked at."""
+    paras, lines, src, names = case['paras'], case['lines'], case['src'], list(case['names'])
+    bad, benc = case['bad'], case['benc']
+    strict = case.get('strict', True)
+    feol = case.get('final_eol', True)
+    ns = '' if strict else NS_SUFFIX
+    good_raw = [l.encode('utf-8') for l in lines]
+    bad_raw = list(good_raw)
+    bad_raw[bad] = lines[bad].encode(benc)
+    labels, ford, field, first, bpara = enc_positions(lines, bad)
+    if not _not_utf8(bad_raw[bad]) or field in ('Files', 'Format', None):
+        ctx.inconclusive.append('generator: line %d (%r as %s) of an enc case is valid UTF-8 / a Files line' % (bad, lines[bad], benc))
+        return
+    skip = ford if (field == 'Copyright' and first) else None       # that paragraph's id stands on the line that is not judged
+    want_files = [(('?' if k == skip else t), f) for k, (t, f) in enumerate(_written_files_view(paras))]
+    want_tags = [t for t, _ in want_files]
+    want_lists = [G.GlobList(p['F']) for p in paras if 'F' in p]
+    rr = random.Random('enc/%d/%d' % (len(lines), len(names)))
+    small = dict(case)
+    small['names'] = names[:1]
+    ctx.count('enc:documents')
+    ctx.count('enc:source:%s' % src)
+    ctx.count('enc:%s' % ('strict' if strict else 'strict=False'))
+    ctx.count('enc:bad-line-encoding:%s' % benc)
+    ctx.count('enc:bad-line-encoding-family:%s' % ENC_FAMILY.get(benc, 'other'))
+    ctx.count('enc:bad-line-field:%s' % field)
+    ctx.count('enc:bad-line:%s' % ('first-line-of-field' if first else 'continuation-line'))
+    for lab in labels:
+        ctx.count('enc:position:%s' % lab)
+    if not feol:
+        ctx.count('enc:no-end-of-line-after-last-line')
+        if bad == len(lines) - 1:
+            ctx.count('enc:bad-line-is-unterminated-last-line')
+    ctx.count('enc:non-ascii-patterns', sum(1 for p in paras if 'F' in p for x in p['F'] if _non_ascii(x)))
+    ctx.count('enc:non-ascii-names', sum(1 for x in names if _non_ascii(x)))
+    if any(_non_ascii(l) for k, l in enumerate(lines) if k != bad and not l.startswith(('Files:', ' ', '\t'))):
+        ctx.count('enc:other-field-lines-with-valid-non-ascii-text')
+
+    def parse(raw, s=src, ls=lines):
+        try:
+            return cmt_parse(ctx, ls, s, strict, feol, raw=raw, note='enc')
+        except Exception as e:
+            return e
+
+    # --- the control: every line valid UTF-8
+    ctx.mon('M.enc.ctl.order')
+    gdoc = parse(good_raw)
+    st = _tok_structure(gdoc, want_tags, skip)
+    if st[0] != 'ok':
+        sst = _tok_structure(parse(None, CMT_PAIR[src]), want_tags, skip)
+        if sst[0] == 'ok' and [f for _, f in sst[1]] == [f for _, f in want_files]:
+            ctx.violation(_lost_key(st, len(want_files), 'in-utf-8-bytes-document') + '/bytes-source' + ns,
+                          'Copyright(%s) over a valid UTF-8 document with non-ASCII characters handed over as BYTES (source %s) %s; '
+                          'written were %r, and the same document as str (source %s) shows exactly those.  Document: %r'
+                          % ('' if strict else '..., strict=False', src,
+                             'raised ' + st[1] if st[0] == 'raised' else 'shows Files paragraphs %r' % (st[1],), want_files,
+                             CMT_PAIR[src], lines), small)
+        else:
+            ctx.inconclusive.append('enc control document did not parse to what was written, as bytes and as str (source %s): wrote '
+                                    '%r, got %r' % (src, want_files, st[1]))
+        return
+    ctx.evaluations += max(0, len(names) - 1)
+    gres, n = _judge_queries(ctx, case, gdoc, st, want_files, want_lists, names, rr, 'enc', 'control-document', 'M.enc.ctl.files',
+                             'M.enc.ctl.find', 'enc-ctl-find', '/utf-8-bytes-document-with-non-ascii-patterns' + ns)
+    if n:
+        return
+    # --- the same document with the ONE line that is not valid UTF-8
+    ctx.mon('M.enc.order')
+    w0 = ctx.counters['enc:note:warning:UnicodeWarning']
+    bdoc = parse(bad_raw)
+    if ctx.counters['enc:note:warning:UnicodeWarning'] > w0:
+        ctx.count('enc:documents-with-decoder-warning')
+    bst = _tok_structure(bdoc, want_tags, skip)
+    where = 'in-document-with-one-undecodable-line'
+    desc = ('line %d %r (field %s, encoded as %s: %r) is not valid UTF-8; every other line is' % (bad, lines[bad], field, benc, bad_raw[bad]))
+    if bst[0] != 'ok':
+        # is it the bad line by itself (its own reading is not judged) or does it reach other lines?  The same document with
+        # every OTHER line made ASCII (non-ASCII characters replaced by 'x'), the bad line kept: if that one shows the
+        # (asciified) paragraphs written, the bad line alone is harmless and the loss comes from how OTHER lines were decoded
+        a_lines = [_asciify(l) for l in lines]
+        a_raw = [l.encode('ascii') for l in a_lines]
+        a_raw[bad] = bad_raw[bad]
+        a_want = [(t, tuple(_asciify(x) for x in f)) for t, f in want_files]
+        ast = _tok_structure(parse(a_raw, src, a_lines), want_tags, skip)
+        if ast[0] == 'ok' and [f for _, f in ast[1]] == [f for _, f in a_want]:
+            ctx.violation(_lost_key(bst, len(want_files), where) + '/bytes-source' + ns,
+                          'Copyright(%s) over BYTES (source %s): %s.  The document %s; with that line made valid it shows the Files '
+                          'paragraphs written, %r, and with every OTHER line made ASCII (the bad line kept) it shows the paragraphs '
+                          'written too.  Document: %r'
+                          % ('' if strict else '..., strict=False', src, desc,
+                             'raised ' + bst[1] if bst[0] == 'raised' else 'shows Files paragraphs %r' % (bst[1],), want_files, lines), small)
+        else:
+            ctx.count('enc:note:undecodable-line-changes-the-paragraphs-by-itself-not-judged')
+            ctx.extra.setdefault('enc_notes', [])
+            if len(ctx.extra['enc_notes']) < 3:
+                ctx.extra['enc_notes'].append(('%s; document %s also when every other line is ASCII'
+                                               % (desc, 'rejected (%s)' % bst[1] if bst[0] == 'raised' else 'shows %r' % (bst[1],)))[:600])
+        return
+    ctx.count('enc:%d-files-paragraphs' % min(len(want_lists), 7))
+    bres, n = _judge_queries(ctx, case, bdoc, bst, want_files, want_lists, names, rr, 'enc', 'document-with-undecodable-line',
+                             'M.enc.files', 'M.enc.find', 'enc-find', '/' + where[3:] + ns)
+    if n:
+        ctx.violations[-1]['msg'] = (ctx.violations[-1]['msg'] + ' || ' + desc)[:2000]
+        return
+    for name, a, b in zip(names, gres, bres):
+        ctx.mon('M.enc.same')
+        if a != b:
+            s1 = dict(small)
+            s1['names'] = [name]
+            ctx.violation('document-with-one-undecodable-line-resolves-differently-from-the-same-document-with-that-line-valid' + ns,
+                          'find_files_paragraph(%r): all lines valid UTF-8 -> %s, %s -> %s' % (name, _show(a), desc, _show(b)), s1)
+    fidx = [i for i, p in enumerate(paras) if 'F' in p]
+    for name in names:
+        hits = [j for j, gl in enumerate(want_lists) if gl.matches(name)]
+        if not hits:
+            continue
+        if len(hits) >= 2:
+            ctx.count('enc-find:last-of-several-matching')
+        if not _non_ascii(name):
+            continue
+        ctx.count('enc-find:non-ascii-name-resolves-to-a-paragraph')
+        if any(_non_ascii(x) for x in want_lists[hits[-1]].patterns):
+            ctx.count('enc-find:non-ascii-name-resolves-to-paragraph-with-non-ascii-patterns')
+            at = fidx[hits[-1]] + 1               # ordinal of that paragraph in the document (0 = header)
+            ctx.count('enc-find:resolves-to-%s' % ('the-paragraph-that-holds-the-undecodable-line' if at == bpara else
+                                                   ('paragraph-behind-the-undecodable-line' if at > bpara else
+                                                    'paragraph-before-the-undecodable-line')))
+
+
+_PGP_MARK_RE = None
+
+
+def pgp_markers(lines):
+    """[(line number, 'BEGIN' | 'END', what, how it is led in: 'blank' | 'blanks' | 'tab' | 'field-line')] for every line that
+    quotes an armor header line NOT in column 0."""
+    import re
+    global _PGP_MARK_RE
+    if _PGP_MARK_RE is None:
+        _PGP_MARK_RE = re.compile(r'^(?P<lead>[ \t]+|[A-Za-z-]+:[ \t]*)-----(?P<action>BEGIN|END) PGP (?P<what>[^-]+)-----[ \t]*$')
+    out = []
+    for k, l in enumerate(lines):
+        m = _PGP_MARK_RE.match(l)
+        if m:
+            lead = m.group('lead')
+            how = 'field-line' if ':' in lead else ('tab' if '\t' in lead else ('blank' if lead == ' ' else 'blanks'))
+            out.append((k, m.group('action'), m.group('what'), how))
+    return out
+
+
+def run_pgp(ctx, case):
+    """A copyright document whose Comment / License / Copyright / Disclaimer texts quote PGP armor lines on CONTINUATION lines
+    (with their leading blanks): not armor - all paragraphs behind them must still be there (all_files_paragraphs against what
+    was written, M.pgp.order), and names resolve by the last-match rule (M.pgp.find, M.match)."""
+    paras, lines, src, names = case['paras'], case['lines'], case['src'], list(case['names'])
+    strict = case.get('strict', True)
+    feol = case.get('final_eol', True)
+    ns = '' if strict else NS_SUFFIX
+    is_bytes = src.startswith(('bytes', 'disk-rb'))
+    stype = 'bytes-source' if is_bytes else 'str-source'
+    want_files = _written_files_view(paras)
+    want_tags = [t for t, _ in want_files]
+    want_lists = [G.GlobList(p['F']) for p in paras if 'F' in p]
+    rr = random.Random('pgp/%d/%d' % (len(lines), len(names)))
+    small = dict(case)
+    small['names'] = names[:1]
+    marks = pgp_markers(lines)
+    if not marks or any(l.startswith('-----') for l in lines):
+        ctx.inconclusive.append('generator: a pgp case without quoted marker / with a marker in column 0: %r' % (lines,))
+        return
+    ctx.count('pgp:documents')
+    ctx.count('pgp:source:%s' % src)
+    ctx.count('pgp:%s' % stype)
+    ctx.count('pgp:%s' % ('strict' if strict else 'strict=False'))
+    ctx.count('pgp:%s/%s' % (stype, 'strict' if strict else 'strict=False'))
+    if not feol:
+        ctx.count('pgp:no-end-of-line-after-last-line')
+    # --- where the quoted markers stand (evidence counters)
+    para_of, pi = [], 0
+    for l in lines:
+        if l == '':
+            pi += 1
+        para_of.append(pi)
+    kinds = ['header'] + ['Files' if 'F' in p else 'License' for p in paras]
+    first_mark_para = para_of[marks[0][0]]
+    by_para = {}
+    for k, action, what, how in marks:
+        ctx.count('pgp:marker:%s' % action)
+        ctx.count('pgp:marker-led-in-by:%s' % how)
+        ctx.count('pgp:marker:%s %s' % (action, what.strip()))
+        by_para.setdefault(para_of[k], []).append(action)
+        j = k
+        while j > 0 and lines[j][:1] in (' ', '\t'):
+            j -= 1
+        ctx.count('pgp:host-field:%s' % lines[j].split(':', 1)[0])
+        ctx.count('pgp:host-paragraph:%s' % kinds[para_of[k]])
+        if k + 1 >= len(lines) or lines[k + 1] == '':
+            ctx.count('pgp:marker-is-last-line-of-its-paragraph')
+        if kinds[para_of[k]] == 'Files':
+            f0 = [x for x in range(len(lines)) if para_of[x] == para_of[k] and lines[x].startswith('Files:')]
+            if f0 and k < f0[0]:
+                ctx.count('pgp:marker-before-the-files-field-of-its-paragraph')
+    for acts in by_para.values():
+        if 'BEGIN' in acts and 'END' not in acts:
+            ctx.count('pgp:quote:begin-without-end')
+        elif 'BEGIN' not in acts:
+            ctx.count('pgp:quote:lone-end')
+        else:
+            ctx.count('pgp:quote:begin-and-end')
+        if acts.count('BEGIN') >= 2:
+            ctx.count('pgp:quote:signed-message-and-signature')
+    behind = [j for j, i in enumerate(i for i, p in enumerate(paras) if 'F' in p) if i + 1 > first_mark_para]
+    ctx.count('pgp:files-paragraphs-behind-the-first-quote', len(behind))
+    if behind:
+        ctx.count('pgp:documents-with-files-paragraphs-behind-the-quote')
+
+    def parse(ls):
+        try:
+            return cmt_parse(ctx, ls, src, strict, feol)
+        except Exception as e:
+            return e
+
+    ctx.mon('M.pgp.order')
+    doc = parse(lines)
+    st = _tok_structure(doc, want_tags)
+    if st[0] != 'ok':
+        skip = set(k for k, _, _, _ in marks)
+        defused = [l.replace('-----', '=====') if k in skip else l for k, l in enumerate(lines)]
+        cst = _tok_structure(parse(defused), want_tags)
+        if cst[0] == 'ok' and cst[1] == want_files:
+            ctx.violation(_lost_key(st, len(want_files), 'behind-quoted-pgp-armor-line') + '/' + stype + ns,
+                          'Copyright(%s) over source %s %s; written were %r.  The document quotes PGP armor lines on continuation / '
+                          'field lines (NOT in column 0: %r); the same document with those lines defused (----- -> =====) shows '
+                          'exactly the paragraphs written.  Document: %r'
+                          % ('' if strict else '..., strict=False', src,
+                             'raised ' + st[1] if st[0] == 'raised' else 'shows Files paragraphs %r' % (st[1],), want_files,
+                             [lines[k] for k in sorted(skip)], lines), small)
+        else:
+            ctx.inconclusive.append('pgp document did not parse to what was written, with AND without its quoted marker lines '
+                                    '(source %s): wrote %r, got %r' % (src, want_files, st[1]))
+        return
+    if st[2] != _written_ids(paras):
+        ctx.count('pgp:note:non-files-paragraphs-differ-from-written')
+    ctx.count('pgp:%d-files-paragraphs' % min(len(want_lists), 7))
+    ctx.evaluations += max(0, len(names) - 1)
+    res, n = _judge_queries(ctx, case, doc, st, want_files, want_lists, names, rr, 'pgp', stype, 'M.pgp.files', 'M.pgp.find',
+                            'pgp-find', '/document-quoting-pgp-armor-lines/' + stype + ns)
+    if n or any(not gl.legal for gl in want_lists):
+        return
+    for name in names:
+        hits = [j for j, gl in enumerate(want_lists) if gl.matches(name)]
+        if hits and hits[-1] in behind:
+            ctx.count('pgp-find:resolves-to-paragraph-behind-the-quote')
+            if len(hits) >= 2:
+                ctx.count('pgp-find:last-of-several-matching-stands-behind-the-quote')
+        elif hits and behind:
+            ctx.count('pgp-find:resolves-to-paragraph-before-the-quote-although-files-paragraphs-follow')
 
 
 def _para_ids(paragraphs):
@@ -3698,6 +4678,10 @@ def run_case(ctx, case):
         run_cmt(ctx, case)
     elif kind == 'incr':
         run_incr(ctx, case)
+    elif kind == 'enc':
+        run_enc(ctx, case)
+    elif kind == 'pgp':
+        run_pgp(ctx, case)
     else:
         raise ValueError('unknown case kind %r' % kind)
 
@@ -4037,7 +5021,7 @@ for _t, _d in _R8_FLOORS.items():
 LEVEL_TEXT = ('Runtime monitoring: seeded hostile pattern lists and near-miss names (literal expansions of the patterns with '
               '0..2 single-character edits), bounded-exhaustive sweeps of small pattern/name spaces, parsed and built '
               'documents with several Files paragraphs (also with whitespace-only separators, with comment lines and handed over '
-              'as bytes), paragraphs built with long lists and with patterns that start with "." or "/", and histories of `files` '
+              'as bytes, with one line that is not valid UTF-8, with quoted PGP armor lines), paragraphs built with long lists and with patterns that start with "." or "/", and histories of `files` '
               're-assignments, and documents built add by add with shared license short names are pushed through the live '
               'FilesParagraph.matches / Copyright.find_files_paragraph; every answer is compared with an independent glob '
               'matcher (whole-name, * crosses "/", ? exactly one character, only \\\\ \\* \\? escapes) and with the "last '
